@@ -23,6 +23,7 @@ from asphalt.core import (  # noqa: E402
     add_resource,
     add_resource_factory,
     add_teardown_callback,
+    current_context,
     get_resource,
     inject,
     resource,
@@ -115,7 +116,17 @@ def make_classes(prog, d, state):
                             # the teardown action of a service that never came up must never be called
                             state.setdefault("svc_stop", []).append(key)
                             stop.set()
-                        await start_service_task(service, key, teardown_action=stop_service)
+                        if state["r"].random() < 0.3:
+                            # started through the component's own view of the context, with the DEFAULT teardown
+                            # action: the task runs until it is cancelled when the surrounding context is left
+                            async def forever(*, task_status, key=key):
+                                await d.gate(i, on_cancel=lambda: d.obs("Cancelled", i))
+                                task_status.started()
+                                state.setdefault("svc_up", set()).add(key)
+                                await anyio.sleep_forever()
+                            await current_context().start_service_task(forever, key)
+                        else:
+                            await start_service_task(service, key, teardown_action=stop_service)
                     else:
                         await d.gate(i, on_cancel=lambda: d.obs("Cancelled", i))
                     for a in sg:
